@@ -8,6 +8,7 @@ package filtering
 // (*LegacyRewrite).Compare / matchesQType, isWildcard, matchDomainWildcard,
 // setRewriteResult, the slices.SortFunc instance and container.MapSet[string].
 //
+//vx:native
 //vx:overlay internal/filtering/zz_vx_c06.go
 //vx:entry vxC06Resolve reach=not-matched,pass-self,pass-self-wild,pass-family,rewritten-ips,matched-no-value,matched-other-qtype,cname-upstream,cname-local,cname-chain,cname-wild-self,cname-over-addr,exact-shadows-wild,longest-wild,cycle,open-tie first_ms=4000
 //vx:entry vxC06Terminates reach=t-max,t-done
